@@ -340,7 +340,7 @@ def rule_prefilter(c, prog, R="C04.pre"):
         # the descriptor lookup takes the wire type as an argument: its miss is the documented `property unknown` skip
         lookup_ids = set()
         for y in core.walk(cnd):
-            if y.get("k") == "Call" and (core.callee(y) or "").endswith("find_canonical_property"):
+            if y.get("k") in ("Call", "MethodCall") and ((core.callee(y) or "").endswith("find_canonical_property") or "CanonicalProperty" in (y.get("ty") or "")):
                 lookup_ids |= {id(z) for z in core.walk(y)}
         mentions = any(y.get("k") == "Path" and y.get("lid") in ty_locals and id(y) not in lookup_ids for y in core.walk(cnd))
         if not mentions:
